@@ -147,6 +147,33 @@ def equal_created_at(ctx):
         st.close()
 
 
+def cyclic_log(ctx):
+    """a merged log in which each branch recorded one direction of a dependency (the CLI refuses cycles, a merge does not): whatever the views do
+    with the members of a cycle, they must do the same thing every time"""
+    st = cmdrun.Store(ctx.ergo, ctx.go)
+    try:
+        T = "2026-01-01T00:00:0%dZ"
+        lines = [json.dumps({"type": "new_epic", "ts": T % 0, "data": {"id": "EPICAA", "uuid": "ue", "epic_id": "", "state": "todo", "title": "E", "body": "", "created_at": T % 0}})]
+        kids = ["KIDAA%d" % i for i in range(7)] + ["ORPHA%d" % i for i in range(6)]
+        for i, k in enumerate(kids):
+            lines.append(json.dumps({"type": "new_task", "ts": T % 1, "data": {"id": k, "uuid": "u" + k, "epic_id": "EPICAA" if k.startswith("KID") else "", "state": "todo", "title": "t " + k, "body": "", "created_at": T % 1}}))
+        for grp in (kids[:7], kids[7:]):
+            for i, k in enumerate(grp):      # a ring: each waits for the next, the last for the first
+                lines.append(json.dumps({"type": "link", "ts": T % 2, "data": {"from_id": k, "to_id": grp[(i + 1) % len(grp)], "type": "depends"}}))
+        open(st.log_path(), "w").write("\n".join(lines) + "\n")
+        for argv in (["list"], ["list", "--all"], ["list", "--epic", "EPICAA"], ["show", "EPICAA"], ["--json", "show", "EPICAA"], ["--json", "list", "--all"], ["list", "--ready"]):
+            outs = set()
+            for k in range(12 if ctx.quick else 40):
+                rr = st.exec(argv)
+                outs.add((rr["exit"], rr["stdout"]))
+            ctx.count(1, key=("cyclic-log", " ".join(argv)))
+            if len(outs) > 1:
+                ctx.violation("C12 nondeterministic output of %s (log with a dependency cycle)" % " ".join(argv), "%d different outputs for the same log" % len(outs),
+                              {"log": lines, "argv": argv, "outputs": [o[1][:400] for o in sorted(outs)[:2]]}); return
+    finally:
+        st.close()
+
+
 def history_grows(ctx, r):
     st = cmdrun.Store(ctx.ergo, ctx.go)
     v = gen.View()
@@ -233,6 +260,7 @@ def run(ctx):
     for d in res["diffs"][:3]:
         ctx.tie_broken("T2-fn replay", {"first_difference": fndiff.first_difference(d["go"], d["model"])})
     equal_created_at(ctx)
+    cyclic_log(ctx)
     read_programs(ctx)
     r = gen.Rng(ctx.seed * 1000003 + 12)
     for i in range(16 if ctx.quick else 300):
